@@ -246,8 +246,13 @@ def gen(repo) -> str:
     # _Identifiers.visitControlLine: does a `% for` whose suite mentions `loop` count as a reader of `loop` itself
     # (so that the function it is emitted into creates its __M_loop)?
     ivcl = find_func(ident_cls.body, "visitControlLine", rel)
-    for_declares_loop = any(isinstance(n, ast.Call) and isinstance(n.func, ast.Name) and n.func.id == "LoopVariable"
-                            for n in ast.walk(ivcl))
+    # recognised only as: a LoopVariable() visitor is run inside _Identifiers.visitControlLine itself, its `.detected`
+    # is consulted, and `self.undeclared.add("loop")` follows
+    uses_lv = any(isinstance(n, ast.Call) and isinstance(n.func, ast.Name) and n.func.id == "LoopVariable" for n in ast.walk(ivcl))
+    reads_detected = any(isinstance(n, ast.Attribute) and n.attr == "detected" for n in ast.walk(ivcl))
+    adds_loop = any(isinstance(n, ast.Call) and ast.unparse(n.func) == "self.undeclared.add" and len(n.args) == 1
+                    and isinstance(n.args[0], ast.Constant) and n.args[0].value == "loop" for n in ast.walk(ivcl))
+    for_declares_loop = uses_lv and reads_detected and adds_loop
 
     out = [HEADER % "mako/codegen.py (TOPLEVEL_DECLARED, RESERVED_NAMES, _Identifiers, _GenerateRenderMethod), mako/template.py (Template.reserved_names, render_context), mako/runtime.py (Context.__getitem__, Context.get)",
            "", "namespace MakoModel.Generated.Names", "",
